@@ -61,7 +61,7 @@ PROPS = {
         jobs=[dict(harness=BROKER_H, entries=r"^H_C20_", params=dict(quick=dict(K=2, L=3), thorough=dict(K=3, L=4)), shards=dict(quick=8, thorough=16)),
               # registries reached through the API (histories of H operations incl. repeated removals), then Reopen
               dict(harness=BROKER_H, entries=r"^H_C05_history_vs_model$", params=dict(quick=dict(H=2), thorough=dict(H=3)), shards=dict(quick=16, thorough=16))],
-        must_reach=["C20.reopen.ok", "C20.reopen.one-failure", "C05.history.end", "C20.reopen-target.end"],
+        must_reach=["C20.reopen.ok", "C20.reopen.one-failure", "C05.history.end", "C20.reopen-target.end", "C20.reopen.twice"],
         bounds=dict(quick="2 types; pipelines of 2..3, 2 and 2 nodes", thorough="pipelines of 2..4, 2, 2 nodes"),
         trusted_base=COMMON_TRUST,
     ),
